@@ -18,3 +18,7 @@ import GldapModel.Props.FilterSession
 #print axioms Gldap.C01_search_faithful
 #print axioms Gldap.C01_filter_fix_conservative
 #print axioms Gldap.C01_fix_conservative
+#print axioms Gldap.filter_wf_needed_rule_dn
+#print axioms Gldap.filter_wf_needed_subs_nonempty
+#print axioms Gldap.filter_wf_needed_part_nonempty
+#print axioms Gldap.filter_wf_needed_plain_attr
